@@ -254,3 +254,53 @@ func ZZ_C01_BIG() {
 	zz.Assert("body-is-exactly-the-framed-bytes", bytes.Equal(r.bodies[0], body))
 	zz.Assert("next-request-intact", r.seen[1].method == "GET" && r.seen[1].uri == "/s" && len(r.bodies[1]) == 0)
 }
+
+// ZZ_C01_MP: a multipart/form-data request with the server's default pre-parsing of forms. The
+// form is followed, inside the declared Content-Length, by an epilogue (RFC 2046 allows text
+// after the closing delimiter) of a length around the parser's read-ahead sizes; the pipelined
+// sentinel must be handled as itself: every byte of the declared body belongs to the first
+// request whether or not the form parser looked at it.
+func ZZ_C01_MP() {
+	epi := []int{0, 1, 100, 4000, 4096, 5000, 9000}[zz.Choose("epilogue", 7)]
+	val := zz.Bytes("fieldvalue", 2)
+	for _, c := range val {
+		zz.Assume(c != '\r' && c != '\n' && c != '-')
+	}
+	mp := []byte("--b\r\nContent-Disposition: form-data; name=\"f\"\r\n\r\n")
+	mp = append(mp, val...)
+	mp = append(mp, "\r\n--b--\r\n"...)
+	for i := 0; i < epi; i++ {
+		mp = append(mp, 'e')
+	}
+	wire := []byte("POST /a HTTP/1.1\r\nHost: h\r\nContent-Type: multipart/form-data; boundary=b\r\nContent-Length: ")
+	wire = append(wire, zzItoa(len(mp))...)
+	wire = append(wire, "\r\n\r\n"...)
+	wire = append(wire, mp...)
+	wire = append(wire, zzSentinel...)
+	frag := []int{0, 1000}[zz.Choose("frag", 2)]
+	nc := zz.NewNetConn(wire)
+	if frag > 0 {
+		nc.Frag = func(rem int) int { return frag }
+	}
+	var seen []zzSeen
+	var form []byte
+	core := zzNewCore(func(c context.Context, ctx *app.RequestContext) {
+		s := zzSeen{method: string(ctx.Method()), uri: string(ctx.Request.RequestURI())}
+		seen = append(seen, s)
+		if len(seen) == 1 {
+			form = append(form, ctx.FormValue("f")...)
+		}
+	})
+	s := zzNewServer(core)
+	s.DisablePreParseMultipartForm = false
+	s.IdleTimeout = 1
+	_ = s.Serve(context.Background(), standard.ZZNewConn(nc))
+	zz.Cover("reached-assert", true)
+	zz.Assert("two-requests-handled", len(seen) == 2)
+	if len(seen) >= 1 {
+		zz.Assert("form-field-value", bytes.Equal(form, val))
+	}
+	if len(seen) >= 2 {
+		zz.Assert("next-request-is-the-sentinel", seen[1].method == "GET" && seen[1].uri == "/s")
+	}
+}
